@@ -23,7 +23,7 @@
 
    Every rule has an identifier (the strings "L-...", "V-...", "U-...", "W-...").  The feature
    vector of a case is the set of rule identifiers its evaluation went through. *)
-EXTENDS Naturals, Sequences, FiniteSets
+EXTENDS Naturals, Sequences, FiniteSets, TLC
 
 -----------------------------------------------------------------------------
 (* generic helpers *)
@@ -134,15 +134,15 @@ VisTag(ws, f, g) == IF g = 0 THEN "I-package" ELSE IF g = f THEN "I-self"
    defined in a file f does not see is treated as absent; a package is known when a visible file
    lives in it or below it). *)
 Env(ws, f) ==
-  LET vis   == Visible(ws, f)
-      syms  == UNION {DeclSyms(ws, g) : g \in vis}
-      names == {s.fqn : s \in syms}
-      pkgs  == UNION {PkgPrefixes(ws[g].pkg) : g \in vis}
-  IN [tab    |-> [n \in names \cup pkgs |->
-                    IF n \in names THEN CHOOSE s \in syms : s.fqn = n ELSE PkgSym(n)],
-      hidden |-> {s.fqn : s \in UNION {DeclSyms(ws, g) : g \in Files(ws) \ vis}},
-      pkglen |-> Len(ws[f].pkg)]
-Find(env, n) == IF n \in DOMAIN env.tab THEN env.tab[n] ELSE NullSym
+  [syms   |-> UNION {DeclSyms(ws, g) : g \in Visible(ws, f)},
+   pkgs   |-> UNION {PkgPrefixes(ws[g].pkg) : g \in Visible(ws, f)},
+   hidden |-> {s.fqn : s \in UNION {DeclSyms(ws, g) : g \in Files(ws) \ Visible(ws, f)}},
+   pkglen |-> Len(ws[f].pkg)]
+(* (record fields are evaluated once when the record is built; the operators below only scan) *)
+Find(env, n) ==
+  LET m == {s \in env.syms : s.fqn = n}
+  IN IF m # {} THEN CHOOSE s \in m : TRUE
+     ELSE IF n \in env.pkgs THEN PkgSym(n) ELSE NullSym
 
 ScopeTag(env, scope) == IF Len(scope) > env.pkglen THEN "decl" ELSE "pkg"
 LRes(st, sym, at, guess, rules) == [st |-> st, sym |-> sym, at |-> at, guess |-> guess, rules |-> rules]
@@ -230,6 +230,7 @@ KindOK(slot, k) == CASE slot = "type" -> k \in {"message", "enum"}
 Outcome(ws, env, f, d, slot, sp) ==
   LET r == Lookup(env, RelTo(ws[f], d), sp, ModeOf(slot))
       base == [outcome |-> "", fqn |-> JoinDots(r.at), kind |-> r.sym.kind, deffile |-> r.sym.file,
+               defdecl |-> r.sym.decl,
                guess |-> JoinDots(r.guess.fqn), guesskind |-> r.guess.kind,
                rules |-> r.rules \cup {"S-" \o (IF IsOptSlot(slot) THEN "optname" ELSE slot)}
                          \cup {IF sp.abs THEN "S-abs" ELSE IF Len(sp.parts) > 1 THEN "S-compound" ELSE "S-simple"}]
@@ -281,9 +282,9 @@ NonEmptyOK(F) ==
 (* V-field-numbers: distinct positive numbers among the fields of one message *)
 MsgOf(F, d) == ScopeParent(F, d)
 FieldNumsOK(F) ==
-  \A d1, d2 \in Decls(F) :
-    (d1 # d2 /\ F.decls[d1].kind = "field" /\ F.decls[d2].kind = "field" /\ MsgOf(F, d1) = MsgOf(F, d2))
-      => (F.decls[d1].num # F.decls[d2].num /\ F.decls[d1].num \in 1..999)
+  LET flds == {d \in Decls(F) : F.decls[d].kind = "field"}
+  IN /\ \A d \in flds : F.decls[d].num \in 1..999
+     /\ \A d1, d2 \in flds : (d1 # d2 /\ MsgOf(F, d1) = MsgOf(F, d2)) => F.decls[d1].num # F.decls[d2].num
 (* every message of a non-proto3 user file is rendered with `extensions 1000 to 1999;` *)
 ExtRange == 1000..1999
 
@@ -302,8 +303,10 @@ Acyclic(ws) == \A g \in Files(ws) : g \notin Reach(ws, DirectImports(ws, g))
 AllDeclSyms(ws) == UNION {DeclSyms(ws, g) : g \in Files(ws)}
 AllPkgs(ws) == UNION {PkgPrefixes(ws[g].pkg) : g \in Files(ws)}
 UniqueSymbols(ws) ==
-  /\ \A s, t \in AllDeclSyms(ws) : s.fqn = t.fqn => s = t
-  /\ \A s \in AllDeclSyms(ws) : s.fqn \notin AllPkgs(ws)
+  LET all == AllDeclSyms(ws)
+      names == {s.fqn : s \in all}
+  IN /\ Cardinality(names) = Cardinality(all)        \* no full name defined twice
+     /\ names \cap AllPkgs(ws) = {}
 (* V-no-google: user files stay out of the google namespace *)
 NoGoogle(ws) == \A g \in Files(ws) :
   ~ws[g].builtin => /\ (IF ws[g].pkg = <<>> THEN TRUE ELSE ws[g].pkg[1] # "google")
@@ -312,29 +315,40 @@ NoGoogle(ws) == \A g \in Files(ws) :
 (* V-ext: extension numbers lie in the extendee's range and are unique per extendee in the pool;
    V-opt-extendee: a custom option used on an element extends that element kind's options message *)
 ResolvedExtendee(ws, g, d) == SiteOutcome(ws, g, d, "extendee")
-ExtsOK(ws) ==
-  LET exts == {<<g, d>> \in UNION {{<<g, d>> : d \in Decls(ws[g])} : g \in Files(ws)} :
-                 ws[g].decls[d].kind = "ext"}
-  IN /\ \A e \in exts : ws[e[1]].decls[e[2]].num \in ExtRange
-     /\ \A e1, e2 \in exts :
-          (e1 # e2 /\ ResolvedExtendee(ws, e1[1], e1[2]).fqn = ResolvedExtendee(ws, e2[1], e2[2]).fqn)
-            => ws[e1[1]].decls[e1[2]].num # ws[e2[1]].decls[e2[2]].num
-OptExtendeeOK(ws, f) ==
-  \A r \in RefsOf(ws, f) :
-    (IsOptSlot(r.slot) /\ r.exp.outcome = "ok") =>
-      LET ekind == IF r.decl = 0 THEN "file" ELSE ws[f].decls[r.decl].kind
-          x == ResolvedExtendee(ws, r.exp.deffile, (CHOOSE s \in DeclSyms(ws, r.exp.deffile) : JoinDots(s.fqn) = r.exp.fqn).decl)
-      IN x.outcome = "ok" /\ x.fqn = "google.protobuf." \o OptionMsgOf[ekind]
+ExtDecls(F) == {d \in Decls(F) : F.decls[d].kind = "ext"}
+(* <<resolved extendee, number, file, decl>> of every extension of the pool (one Env per file) *)
+ExtPairs(ws) ==
+  UNION {LET env == Env(ws, g)
+         IN {<<Outcome(ws, env, g, d, "extendee", ws[g].decls[d].extendee).fqn, ws[g].decls[d].num, g, d>>
+               : d \in ExtDecls(ws[g])} : g \in Files(ws)}
+ExtsOKX(xp) ==
+  /\ \A p \in xp : p[2] \in ExtRange
+  /\ Cardinality({<<p[1], p[2]>> : p \in xp}) = Cardinality(xp)
+ExtsOK(ws) == ExtsOKX(ExtPairs(ws))
+(* all references of the workspace as <<file, ref>> pairs *)
+AllRefs(ws) == UNION {{<<g, r>> : r \in RefsOf(ws, g)} : g \in Files(ws)}
+OptExtendeeOKX(ws, xp, refs) ==
+  \A fr \in refs :
+    LET f == fr[1]  r == fr[2]
+    IN (IsOptSlot(r.slot) /\ r.exp.outcome = "ok") =>
+         LET ekind == IF r.decl = 0 THEN "file" ELSE ws[f].decls[r.decl].kind
+         IN \E p \in xp : /\ p[3] = r.exp.deffile /\ p[4] = r.exp.defdecl
+                          /\ p[1] = "google.protobuf." \o OptionMsgOf[ekind]
+OptExtendeeOK(ws) == OptExtendeeOKX(ws, ExtPairs(ws), AllRefs(ws))
 
 FileOK(F) == TreeOK(F) /\ NonEmptyOK(F) /\ FieldNumsOK(F)
 (* everything except "all references resolve" *)
 WellFormed(ws) ==
   /\ ImportsOK(ws) /\ Acyclic(ws) /\ UniqueSymbols(ws) /\ NoGoogle(ws)
   /\ \A g \in Files(ws) : FileOK(ws[g])
-Valid(ws) ==
-  /\ WellFormed(ws)
-  /\ \A g \in Files(ws) : RefsResolve(ws, g) /\ OptExtendeeOK(ws, g)
-  /\ ExtsOK(ws)
+(* xp = ExtPairs(ws), passed in by callers that need it anyway *)
+ValidX(ws, xp) ==
+  LET refs == AllRefs(ws)
+  IN /\ WellFormed(ws)
+     /\ \A fr \in refs : fr[2].exp.outcome = "ok"
+     /\ OptExtendeeOKX(ws, xp, refs)
+     /\ ExtsOKX(xp)
+Valid(ws) == ValidX(ws, ExtPairs(ws))
 
 -----------------------------------------------------------------------------
 (* unused imports (protoc: unused_dependency_ / LogUnusedDependency, and the removal criterion).
@@ -345,20 +359,50 @@ Valid(ws) ==
    U-either: an import whose needed files are all also visible through another direct import may or
              may not be reported (removing it alone still compiles). *)
 Needed(ws, f) == {r.exp.deffile : r \in {x \in RefsOf(ws, f) : x.exp.outcome = "ok"}} \ {f, 0}
-ImportVerdict(ws, f, k) ==
+(* U-options-keep-descriptor (protoc: OptionInterpreter looks the options message up through
+   FindSymbolNotEnforcingDeps, which marks its file used): a file that carries any option never gets
+   its import of descriptor.proto reported, although removing that import changes nothing. *)
+HasOptions(F) == F.opts # <<>> \/ \E d \in Decls(F) : F.decls[d].opts # <<>>
+DescriptorFiles(ws) == {g \in Files(ws) : ws[g].path = DescriptorPath}
+ImportVerdictN(ws, f, k, needed) ==
   LET i == FileIdx(ws, ws[f].imports[k].path)
       others == {FileIdx(ws, ws[f].imports[j].path) : j \in (1..Len(ws[f].imports)) \ {k}}
-      mine == Provides(ws, i) \cap Needed(ws, f)
+      mine == Provides(ws, i) \cap needed
       alsoElsewhere == {g \in mine : \E j \in others : g \in Provides(ws, j)}
   IN IF ws[f].imports[k].kind = "public" THEN "U-public-never"
-     ELSE IF mine = {} THEN "U-must-warn"
+     ELSE IF mine = {} THEN
+       (IF HasOptions(ws[f]) /\ Provides(ws, i) \cap DescriptorFiles(ws) # {}
+          THEN "U-options-keep-descriptor" ELSE "U-must-warn")
      ELSE IF mine # alsoElsewhere THEN "U-must-keep"
      ELSE "U-either"
+ImportVerdict(ws, f, k) == ImportVerdictN(ws, f, k, Needed(ws, f))
 UnusedImports(ws, f) ==
   {ws[f].imports[k].path : k \in {j \in 1..Len(ws[f].imports) : ImportVerdict(ws, f, j) = "U-must-warn"}}
 
 -----------------------------------------------------------------------------
-(* export helpers: JSON-friendly views *)
+(* export helpers: the JSON "workspace case" schema (see harness/_common/README.md).
+   A spelling is exported as its text (".a.b", "a.b"); default-valued fields are omitted. *)
+OptV(opts) == [j \in 1..Len(opts) |-> SpText(opts[j].name)]
+DeclV(d) ==
+  [kind |-> d.kind, name |-> d.name, parent |-> d.parent]
+  @@ (IF IsRef(d.type) THEN [type |-> SpText(d.type)] ELSE <<>>)
+  @@ (IF IsRef(d.extendee) THEN [extendee |-> SpText(d.extendee)] ELSE <<>>)
+  @@ (IF IsRef(d.input) THEN [input |-> SpText(d.input)] ELSE <<>>)
+  @@ (IF IsRef(d.output) THEN [output |-> SpText(d.output)] ELSE <<>>)
+  @@ (IF d.num # 0 THEN [num |-> d.num] ELSE <<>>)
+  @@ (IF d.opts # <<>> THEN [opts |-> OptV(d.opts)] ELSE <<>>)
+FileV(F) ==
+  [path |-> F.path, pkg |-> F.pkg, syntax |-> F.syntax, imports |-> F.imports,
+   decls |-> [d \in Decls(F) |-> DeclV(F.decls[d])]]
+  @@ (IF F.opts # <<>> THEN [opts |-> OptV(F.opts)] ELSE <<>>)
+  @@ (IF F.builtin THEN [builtin |-> TRUE] ELSE <<>>)
+WsV(ws) == [g \in Files(ws) |-> FileV(ws[g])]
+ExpV(e) == [outcome |-> e.outcome, rules |-> e.rules]
+           @@ (IF e.fqn # "" THEN [fqn |-> e.fqn, kind |-> e.kind] ELSE <<>>)
+           @@ (IF e.deffile # 0 THEN [deffile |-> e.deffile, defdecl |-> e.defdecl] ELSE <<>>)
+           @@ (IF e.guess # "" THEN [guess |-> e.guess, guesskind |-> e.guesskind] ELSE <<>>)
+RefV(r) == [decl |-> r.decl, slot |-> r.slot, sp |-> SpText(r.sp), exp |-> ExpV(r.exp)]
+RefsV(ws, g) == {RefV(r) : r \in RefsOf(ws, g)}
 SymView(s) == [fqn |-> JoinDots(s.fqn), kind |-> s.kind, file |-> s.file, decl |-> s.decl]
 DeclFQNs(ws, g) == [d \in Decls(ws[g]) |-> JoinDots(FQN(ws[g], d))]
 =============================================================================
